@@ -16,20 +16,28 @@ W = ["C11", "C19"]   # wire-alphabet clauses (proved independently of the functi
 
 
 def d4_b64_chars(it):
-    """D4: `const B64_CHARS: &[u8] = b"...";` -> external_body exec const whose assumed ensures is
-    the RFC 4648 alphabet (discharged on the real const by the Kani harness K3 / by the literal check below)."""
+    """D4: `const B64_CHARS: &[u8] = b"...";` -> `const B64_CHARS: [u8; N] = [b0, b1, ...];` (a byte-string literal
+    is the array of its bytes; Verus sees the contents of an array const but not of a byte-string literal, and
+    cannot coerce array -> slice in a const).  Indexing `B64_CHARS[i]` means the same on both types."""
     s = it.buf.text
     m = re.search(r'const B64_CHARS: &\[u8\] =\s*b"([^"\\]*)";', s, re.S)
     if not m:
         raise Lost("rule D4: B64_CHARS shape changed")
     lit = m.group(1)
-    it.rules_applied.append({"rule": "D4", "file": it.relpath, "line": it.first_line, "from": "const B64_CHARS: &[u8] = b\"..\"", "to": "#[verifier::external_body] exec const B64_CHARS with assumed ensures (RFC 4648 alphabet)", "literal": lit})
-    new = ("#[verifier::external_body]\n"
-           "exec const B64_CHARS: &'static [u8]\n"
-           "  ensures B64_CHARS@.len() == 64, forall|i: int| 0 <= i < 64 ==> #[trigger] B64_CHARS@[i] == b64(i)\n"
-           "{\n  b\"" + lit + "\"\n}")
+    arr = ", ".join(str(ord(c)) for c in lit)
+    it.rules_applied.append({"rule": "D4", "file": it.relpath, "line": it.first_line, "from": "const B64_CHARS: &[u8] = b\"..\"", "to": f"const B64_CHARS: [u8; {len(lit)}] = [..its bytes..]", "literal": lit})
+    new = f"const B64_CHARS: [u8; {len(lit)}] = [{arr}];"
     it.buf.replace_span(m.start(), m.end(), new, ("rule", "D4"))
     return lit
+
+
+ENC_TABLE_GLUE = r"""
+proof fn lemma_b64_chars_table()
+  ensures B64_CHARS@.len() == 64, forall|i: int| 0 <= i < 64 ==> #[trigger] B64_CHARS@[i] == b64(i)
+{
+  assert forall|i: int| 0 <= i < 64 implies #[trigger] B64_CHARS@[i] == b64(i) by { }
+}
+"""
 
 
 def c1_closure(it, fn):
@@ -105,6 +113,7 @@ def build(u):
     u.spec("codec_enc_lemmas.rs")
     b = u.item("src/encoder.rs", "const B64_CHARS: &[u8]")
     u.b64_literal = d4_b64_chars(b)
+    u.raw(ENC_TABLE_GLUE, ("glue", NAME))
 
     # ---- encode_vlq ---------------------------------------------------------------------------
     v = u.item("src/encoder.rs", "pub fn encode_vlq(")
@@ -131,6 +140,7 @@ def build(u):
                       "let ghost num0 = num;\n"
                       "let ghost out0 = out@;\n"
                       "proof {\n"
+                      "  lemma_b64_chars_table();\n"
                       "  assert(num0 & 0b11111 == num0 % 32) by (bit_vector);\n"
                       "  assert(num0 >> 5 == num0 / 32) by (bit_vector);\n"
                       "  assert(forall|d: u32| d < 32 ==> #[trigger] (d | (1u32 << 5)) == d + 32) by (bit_vector);\n"
